@@ -99,6 +99,37 @@ func runC20(c *Ctx) {
 		okDec := u.Mentions(decArg, func(x *E) bool { return x.key == raw.key }) && strings.Contains(decArg.key, "bytes.NewReader")
 		c.Check(okDec, "C20.R2", "filterHTML: Latin-1 decode of the decompressed bytes, Latin-1 encode of the spliced text", decC.Pos,
 			"DecodeLatin1(bytes.NewReader(ReadDecompressedBody(res))) ... EncodeLatin1(spliced)", "the text that is spliced is not the Latin-1 decoding of the decompressed body: "+clip(u.Show(decArg), 120))
+		// R6: the 16 KiB window is a window of the body.  The finder is handed the decoded text, a Go
+		// string in which every body byte >= 0x80 takes two bytes; a bound on byte offsets of that
+		// string covers fewer than 16 KiB of such a body.  Accepted: the finder counts characters
+		// (ranges over the string, or counts runes), or is applied to the raw bytes.
+		{
+			c.Rule("C20.R6", "WIRE", "the inspected prefix is 16 KiB of the body, whatever its bytes", 1)
+			onDecoded := false
+			for _, ef := range s.Effects {
+				_ = ef
+			}
+			for _, e := range u.tab {
+				if e.Op == "call" && e.Aux == calleeName(finder) && len(e.Args) >= 1 && e.Args[0].key == body.key {
+					onDecoded = true
+				}
+			}
+			countsRunes := false
+			eachInstrG(c.P, finder, func(_ *ssa.BasicBlock, in ssa.Instruction) {
+				switch x := in.(type) {
+				case *ssa.Range:
+					if isStringT(x.X.Type()) {
+						countsRunes = true
+					}
+				case *ssa.Call:
+					if cal := x.Call.StaticCallee(); cal != nil && strings.HasPrefix(calleeName(cal), "unicode/utf8.RuneCount") {
+						countsRunes = true
+					}
+				}
+			})
+			c.Check(!onDecoded || countsRunes, "C20.R6", "finder: window measured on the body", finder.Pos(), "characters of the decoded text (= bytes of the body) are counted, or the raw bytes are searched",
+				"the window bounds byte offsets of the Latin-1-decoded text, in which every body byte >= 0x80 takes two bytes: a marker within the first 16 KiB of a body with such bytes in front of it is not found and the page gets no content script")
+		}
 		// R1
 		enc := encC.Call.Args[0]
 		idx := u.Call(calleeName(finder), types.Typ[types.Int], body)
